@@ -92,7 +92,7 @@ pub fn check_json(ctx: &Ctx, frame: &[u8]) -> Check {
 }
 
 pub fn run(ctx: &Ctx) {
-    ctx.set_rule("the finite shape space (DF 0..31 x CA/CF x TC 0..31 x subtype x ADS-B version x Comm-B register template x extreme-fill mode; list in vcheck/src/frames.rs::base_shapes) is enumerated completely with K random fills per shape, plus everything the C01 generators accept. Oracle: serde_json::to_string is Ok, one line, parses as one object with a duplicate-rejecting reader, Debug shows no NaN/inf, df/icao24 equal the DF bits and the address carried (AA field or independent CRC overlay), TimedMessage keeps the frame as hex and re-decoding that hex gives the same fields. Non-trivial = accepted frame (distinct by bytes); distinct accepted shapes are reported separately.");
+    ctx.set_rule("the finite shape space (DF 0..31 x CA/CF x TC 0..31 x subtype x ADS-B version x Comm-B register template x extreme-fill mode; list in vcheck/src/frames.rs::base_shapes) is enumerated completely with K random fills per shape, plus everything the C01 generators accept. Oracle: serde_json::to_string is Ok, one line, parses as one object with a duplicate-rejecting reader, Debug shows no NaN/inf, df/icao24 equal the DF bits and the address carried (AA field or independent CRC overlay), TimedMessage keeps the frame as hex and re-decoding that hex gives the same fields; batches of frames also go through the real decode1090 binary (which unwraps to_string) in argument and file mode: no abort, the library's JSON line per frame / a well-formed record that keeps timestamp, frame and every decoded field; related frames in several orders on one thread serialise identically each time. Non-trivial = accepted frame (distinct by bytes); distinct accepted shapes are reported separately.");
     ctx.assume("address of AP formats = remainder of the frame modulo the generator polynomial (independent CRC)");
     // 1. exhaustive shape space x K fills
     let shapes = base_shapes();
@@ -140,6 +140,37 @@ pub fn run(ctx: &Ctx) {
     // 2b. the record is a function of the frame only ("decoding that hex again gives the same fields"): related frames
     //     in several orders on one thread must serialise identically each time
     drive_families(ctx, "c07", ctx.tier.pick(120_000, 1_600_000), &json_observable);
+    // 2c. decode1090 unwraps to_string: batches of generated frames through the real binary, both input modes
+    match std::env::var("DECODE1090_BIN") {
+        Ok(bin) => {
+            use proptest::prelude::*;
+            let n = ctx.tier.pick(240u32, 4_000u32);
+            let shards = 16u32;
+            (0..shards).into_par_iter().for_each(|s| {
+                vcore::ev::run_prop(ctx, &format!("cli-{s}"), n / shards, proptest::collection::vec(vcore::gen::frame().prop_map(|(_, f)| f), 1..40), |frames| {
+                    ctx.class("batch of frames through the real decode1090 binary");
+                    check_cli(ctx, &bin, frames)
+                });
+            });
+            // every base shape once
+            let all: Vec<Vec<u8>> = shapes.iter().enumerate().map(|(i, sh)| {
+                let mut r = SplitMix::new(h64(&(ctx.seed, "c07-cli", i)));
+                let mut fill = [0u8; 14];
+                for b in fill.iter_mut() {
+                    *b = r.next() as u8;
+                }
+                build(sh, &fill, r.next())
+            }).collect();
+            for chunk in all.chunks(64) {
+                ctx.judge(check_cli(ctx, &bin, chunk));
+            }
+            ctx.class_n("base shapes through the real decode1090 binary", all.len() as u64);
+        }
+        Err(_) => {
+            eprintln!("INCONCLUSIVE: DECODE1090_BIN is not set (run through ./check)");
+            std::process::exit(2);
+        }
+    }
     // 3. thorough: coverage-guided campaign (libFuzzer), JSON oracle inside the target
     crate::fuzzrun::decode_campaign(ctx, "c07", &|f| check_json(ctx, f));
     for h in ["8d4840d6990000000000001c3a5f", "8d4840d6f8000000000000dc2a8e", "8d485020994409940838175b284f"] {
@@ -147,6 +178,102 @@ pub fn run(ctx: &Ctx) {
         let fixed = vcore::bits::finish_frame(&f[..11], 0);
         ctx.sample(json!({"kind": "bytes", "frame": hex::encode(&fixed), "json": Message::try_from(fixed.as_slice()).ok().and_then(|m| serde_json::to_string(&m).ok())}));
     }
+}
+
+/// The same frames through the real decode1090 binary, which unwraps `to_string` (anchor crates/decode1090/src/main.rs):
+/// `decode1090 <hex>...` prints one line per frame, `decode1090 -i file -d 0` one timed record per line. Oracle: the
+/// process does not abort; argument mode prints exactly the library's JSON for each frame; file mode prints one
+/// well-formed object per accepted frame that keeps timestamp and frame and contains every field of the library's
+/// decoding of that frame (an ambiguous BDS 5,0 / 6,0 pair may be withdrawn, a position may be added).
+pub fn check_cli(ctx: &Ctx, bin: &str, frames: &[Vec<u8>]) -> Check {
+    use std::io::Write;
+    ctx.eval();
+    let rep = json!({"kind": "cli", "frames": frames.iter().map(hex::encode).collect::<Vec<_>>()});
+    let fail = |sig: &str, d: String| Failure::new(format!("c07:cli:{sig}"), d, rep.clone());
+    let accepted: Vec<(&Vec<u8>, Message)> = frames.iter().filter_map(|f| Message::try_from(f.as_slice()).ok().map(|m| (f, m))).collect();
+    if accepted.is_empty() {
+        return Ok(());
+    }
+    // 1. argument mode
+    let out = std::process::Command::new(bin).args(accepted.iter().map(|(f, _)| hex::encode(f))).output();
+    let Ok(out) = out else {
+        eprintln!("INCONCLUSIVE: decode1090 could not be started");
+        std::process::exit(2);
+    };
+    let stderr = String::from_utf8_lossy(&out.stderr).chars().take(300).collect::<String>();
+    if !out.status.success() {
+        return Err(fail("aborted", format!("decode1090 <hex>... exited with {:?}: {stderr}", out.status.code())));
+    }
+    let text = String::from_utf8_lossy(&out.stdout).to_string();
+    let lines: Vec<&str> = text.lines().collect();
+    if lines.len() != accepted.len() {
+        return Err(fail("line-count", format!("{} lines for {} accepted frames", lines.len(), accepted.len())));
+    }
+    for ((f, m), l) in accepted.iter().zip(lines.iter()) {
+        let want = serde_json::to_string(m).map_err(|e| fail("library-cannot-serialise", e.to_string()))?;
+        if *l != want {
+            return Err(fail("differs-from-library", format!("frame {}: decode1090 prints {l}, the library {want}", hex::encode(f))));
+        }
+        jsonck::parse(l).map_err(|e| fail("malformed", format!("{e}: {l}")))?;
+    }
+    // 2. file mode
+    let dir = vcore::ev::out_root().join(".tmp");
+    let _ = std::fs::create_dir_all(&dir);
+    let path = dir.join(format!("c07-{}-{:?}.jsonl", std::process::id(), std::thread::current().id()));
+    {
+        let mut fh = std::fs::File::create(&path).expect("scratch file");
+        for (i, f) in frames.iter().enumerate() {
+            writeln!(fh, "{}", json!({"timestamp": 1_700_000_000.0 + i as f64 * 0.25, "frame": hex::encode(f)})).unwrap();
+        }
+    }
+    let out = std::process::Command::new(bin).args(["-i", path.to_str().unwrap(), "-d", "0"]).output();
+    let _ = std::fs::remove_file(&path);
+    let Ok(out) = out else {
+        eprintln!("INCONCLUSIVE: decode1090 could not be started");
+        std::process::exit(2);
+    };
+    if !out.status.success() {
+        return Err(fail("aborted", format!("decode1090 -i exited with {:?}: {}", out.status.code(), String::from_utf8_lossy(&out.stderr).chars().take(300).collect::<String>())));
+    }
+    let text = String::from_utf8_lossy(&out.stdout).to_string();
+    let lines: Vec<&str> = text.lines().collect();
+    // from_bytes also accepts over-long inputs; judge the lines that belong to exact-length accepted frames, in order
+    let mut li = 0usize;
+    for (i, f) in frames.iter().enumerate() {
+        let Ok(m) = Message::try_from(f.as_slice()) else {
+            // a line for this input (from_bytes tolerates trailing bytes) is skipped if present
+            if li < lines.len() && lines[li].contains(&format!("\"frame\":\"{}\"", hex::encode(f))) {
+                li += 1;
+            }
+            continue;
+        };
+        let Some(l) = lines.get(li) else {
+            return Err(fail("record-missing", format!("no record for frame {}", hex::encode(f))));
+        };
+        li += 1;
+        let j = jsonck::parse(l).map_err(|e| fail("malformed", format!("{e}: {l}")))?;
+        if j.get("frame").and_then(|x| x.as_str()) != Some(hex::encode(f).as_str()) {
+            return Err(fail("frame-not-kept", format!("record {l} for frame {}", hex::encode(f))));
+        }
+        let ts = 1_700_000_000.0 + i as f64 * 0.25;
+        if !matches!(j.get("timestamp"), Some(J::Num(t)) if (t - ts).abs() <= 1e-6) {
+            return Err(fail("timestamp-not-kept", format!("record {l}, fed timestamp {ts}")));
+        }
+        let want = jsonck::parse(&serde_json::to_string(&m).map_err(|e| fail("library-cannot-serialise", e.to_string()))?).map_err(|e| fail("library-malformed", e))?;
+        if let (J::Obj(have), J::Obj(want)) = (&j, &want) {
+            let both = want.iter().any(|(k, _)| k == "bds50") && want.iter().any(|(k, _)| k == "bds60");
+            for (k, v) in want {
+                if both && (k == "bds50" || k == "bds60") {
+                    continue;
+                }
+                if !have.iter().any(|(k2, v2)| k == k2 && v == v2) {
+                    return Err(fail("field-lost-or-changed", format!("key {k} of the library's decoding is not in the record {l}")));
+                }
+            }
+        }
+    }
+    ctx.nontrivial(h64(&("cli", frames)));
+    Ok(())
 }
 
 /// The JSON a consumer sees for one input: the serialised timed record, or why there is none.
@@ -164,6 +291,15 @@ pub fn json_observable(f: &[u8]) -> String {
 pub fn replay(ctx: &Ctx, v: &Value) {
     if v["kind"] == "family" {
         return replay_family(ctx, "c07", v, &json_observable);
+    }
+    if v["kind"] == "cli" {
+        let Ok(bin) = std::env::var("DECODE1090_BIN") else {
+            eprintln!("INCONCLUSIVE: DECODE1090_BIN is not set (replay through ./check)");
+            std::process::exit(2);
+        };
+        let frames: Vec<Vec<u8>> = v["frames"].as_array().map(|a| a.iter().filter_map(|x| x.as_str().and_then(|s| hex::decode(s).ok())).collect()).unwrap_or_default();
+        ctx.judge(check_cli(ctx, &bin, &frames));
+        return;
     }
     let frame = v["frame"].as_str().and_then(|x| hex::decode(x).ok()).unwrap_or_default();
     ctx.judge(check_json(ctx, &frame));
